@@ -469,7 +469,7 @@ func max1(v int) int {
 }
 
 func TestCheck(t *testing.T) {
-	rt.Cases(1700, 340000, func(idx int64) {
+	rt.Cases(17000, 1700000, func(idx int64) {
 		r := rt.CaseRand(3, idx)
 		rt.Case()
 		if idx%17 < 15 {
